@@ -284,6 +284,34 @@ def m_reshape_allowzero():
     return _model(nodes, [_vi("x", [3, 0, 8])], [_vi("y", [3, 0])], [_i64("s1", [24, 0]), _i64("s2", [3, 0])])
 
 
+def m_foldops(opset):
+    """Constant sub-expressions over ops whose reference implementation depends on the opset version (axes as
+    attribute up to opset 12 / as input from 13; Reduce* 18; Clip 6/11): folding the same op at two opset versions in one
+    process exposes any per-process cache that forgets the version."""
+    c = _f32("c", [[1.0, -2.0, 3.0], [4.0, 5.0, -6.0]])
+    inits = [c]
+    nodes = []
+    if opset >= 13:
+        inits += [_i64("ax0", [0]), _i64("ax1", [1])]
+        nodes += [helper.make_node("Unsqueeze", ["c", "ax0"], ["u"], name="unsq"),
+                  helper.make_node("Squeeze", ["u", "ax0"], ["sq"], name="sqz"),
+                  helper.make_node("ReduceSum", ["c", "ax1"], ["rs"], name="rsum", keepdims=0)]
+    else:
+        nodes += [helper.make_node("Unsqueeze", ["c"], ["u"], name="unsq", axes=[0]),
+                  helper.make_node("Squeeze", ["u"], ["sq"], name="sqz", axes=[0]),
+                  helper.make_node("ReduceSum", ["c"], ["rs"], name="rsum", axes=[1], keepdims=0)]
+    if opset >= 18:
+        nodes += [helper.make_node("ReduceMax", ["c", "ax1"], ["rm"], name="rmax", keepdims=0)]
+    else:
+        nodes += [helper.make_node("ReduceMax", ["c"], ["rm"], name="rmax", axes=[1], keepdims=0)]
+    inits += [_f32("lo", -1.0), _f32("hi", 2.0)]
+    nodes += [helper.make_node("Clip", ["c", "lo", "hi"], ["cl"], name="clip"),
+              helper.make_node("Add", ["x", "sq"], ["a"], name="add"),
+              helper.make_node("Mul", ["a", "cl"], ["m"], name="mul"),
+              helper.make_node("Add", ["rs", "rm"], ["r"], name="add2")]
+    return _model(nodes, [_vi("x", [2, 3])], [_vi("m", [2, 3]), _vi("r", [2]), _vi("u", [1, 2, 3])], inits, opset=opset)
+
+
 def m_padconv(variant=0):
     pads = [[0, 0, 1, 1, 0, 0, 1, 1], [0, 0, 2, 0, 0, 0, 0, 2]][variant]
     nodes = [helper.make_node("Pad", ["x", "pads"], ["xp"], name="pad"),
@@ -503,6 +531,14 @@ def ev_opt_reshape_az():
     return _optimize(m_reshape_allowzero())
 
 
+def ev_opt_fold_o11():
+    return _optimize(m_foldops(11))
+
+
+def ev_opt_fold_o18():
+    return _optimize(m_foldops(18))
+
+
 def ev_opt_padconv():
     out = _optimize(m_padconv(0))
     out["model_b"] = _ser_plain(onnxscript.optimizer.optimize(m_padconv(1)))
@@ -702,7 +738,7 @@ def ev_use_g():
 
 EVENTS = {
     "tr_s1": ev_tr_s1, "tr_s2": ev_tr_s2, "tr_s3": ev_tr_s3,
-    "opt_reshape2": ev_opt_reshape2, "opt_reshape_az": ev_opt_reshape_az, "opt_padconv": ev_opt_padconv, "opt_matreshape": ev_opt_matreshape,
+    "opt_reshape2": ev_opt_reshape2, "opt_reshape_az": ev_opt_reshape_az, "opt_fold_o11": ev_opt_fold_o11, "opt_fold_o18": ev_opt_fold_o18, "opt_padconv": ev_opt_padconv, "opt_matreshape": ev_opt_matreshape,
     "opt_nearmiss": ev_opt_nearmiss, "opt_mixed": ev_opt_mixed,
     "rw_checkraises": ev_rw_checkraises, "rw_patternraises": ev_rw_patternraises, "rw_alt": ev_rw_alt,
     "rw_rms": ev_rw_rms, "fold_reuse": ev_fold_reuse, "convert": ev_convert,
